@@ -50,11 +50,13 @@ type Contract struct {
 	Preserves []string
 	CalleesPreserve []string
 	NoSafety  bool
+	AllocBound string
 	InlineDepth int
 	HasMod    bool
 	MaybeNil  map[string]bool
 	Inline    bool
 	Trusted   bool
+	Sweep     bool // obligations are claimed individually through the baseline (sweep ring)
 	NoVerify  bool
 	Loops     map[int]*LoopSpec
 	Lemma     bool
@@ -82,7 +84,7 @@ func (c *Contract) HasProp(p string) bool {
 	return false
 }
 
-var kwRe = regexp.MustCompile(`^(prop|func|lemma|requires|ensures|modifies|preserves|callees-preserve|nosafety|inline-depth|may-panic|maybe-nil|inline|trusted|noverify|loop|invariant|exit-assume|unroll|iface)\b(\[[A-Za-z0-9_\-\.]+\])?\s*(.*)$`)
+var kwRe = regexp.MustCompile(`^(prop|func|lemma|requires|ensures|modifies|preserves|callees-preserve|alloc-bound|nosafety|inline-depth|may-panic|maybe-nil|inline|trusted|noverify|sweep|loop|invariant|exit-assume|unroll|iface)\b(\[[A-Za-z0-9_\-\.]+\])?\s*(.*)$`)
 
 // ParseContractFile extracts //@ blocks from one Go file.
 func ParseContractFile(path, pkgPath string) ([]*Contract, error) {
@@ -159,6 +161,8 @@ func ParseContractFile(path, pkgPath string) ([]*Contract, error) {
 					cur.CalleesPreserve = append(cur.CalleesPreserve, m)
 				}
 			}
+		case "alloc-bound":
+			cur.AllocBound = strings.TrimSpace(p.text)
 		case "nosafety":
 			cur.NoSafety = true
 		case "inline-depth":
@@ -177,6 +181,8 @@ func ParseContractFile(path, pkgPath string) ([]*Contract, error) {
 			cur.Trusted = true
 		case "noverify":
 			cur.NoVerify = true
+		case "sweep":
+			cur.Sweep = true
 		case "loop":
 			// loop <n> (<vars>)
 			t := strings.TrimSpace(p.text)
@@ -604,6 +610,8 @@ func verif_modifies_map[K comparable, V any](m map[K]V) {}
 func verif_modifies_obj[T any](p *T)          {}
 func verif_modifies_all()                     {}
 func verif_modifies_ghost(name string)        {}
+func verif_alloc_bound(n uint64)              {}
+func verif_uf_u64(name string, x any) uint64  { return 0 }
 func verif_modifies_ghostflag(name string, x any) {}
 func verif_ghost_flag(name string, x any) bool { return false }
 func verif_ghost_int(name string) int         { return 0 }
@@ -684,6 +692,9 @@ func (c *Contract) Generate() (string, error) {
 		} else {
 			fmt.Fprintf(&b, "\tverif_preserves(&(%s))\n", m)
 		}
+	}
+	if c.AllocBound != "" {
+		fmt.Fprintf(&b, "\tverif_alloc_bound(%s)\n", rw.rewrite(c.AllocBound, false))
 	}
 	for _, m := range c.CalleesPreserve {
 		fmt.Fprintf(&b, "\tverif_callees_preserve(&(%s))\n", m)
